@@ -1,8 +1,9 @@
 import CSSVerif.EquivDB
 import CSSVerif.Scc
+import CSSVerif.CCComplete
 /-! Driver for C06. `new n`, `two a b`, `one a b`, `ver a`, `cyc` print
 `model-partition model-verified | scc-partition` (partition = each label ↦ least equivalent label);
-`path a b v1,v2,..` prints the verdict of the proven path checker on the recorded edges. -/
+`cyc` lines end with ` | rest=<0/1>` (hypothesis of cc_complete); `path a b v1,v2,..` prints the verdict of the proven path checker on the recorded edges. -/
 def canon (d : EqDB) (n : Nat) : String :=
   let part := (List.range n).map (fun a => ((List.range n).find? (fun b => d.equivalent a b)).getD a)
   let ver := (List.range n).map (fun a => if d.uf.isVerified a then 1 else 0)
@@ -27,7 +28,10 @@ partial def loop (h : IO.FS.Stream) (n : Nat) (d : EqDB) : IO Unit := do
     | ["ver", a] => match a.toNat? with
       | some a => say (d.setVerified a)
       | none => IO.println "bad-op"; loop h n d
-    | ["cyc"] => say d.connectCycles
+    | ["cyc"] =>
+      -- the hypothesis of the proven cc_complete / cc_exact (the search came to rest within the fuel), evaluated for this history
+      let d' := d.connectCycles
+      IO.println (canon d' n ++ " | " ++ sccPart d' n ++ " | rest=" ++ (if EqDB.ccRest d then "1" else "0")); loop h n d'
     | ["path", a, b, p] => match a.toNat?, b.toNat?, (p.splitOn ",").mapM String.toNat? with
       | some a, some b, some p => IO.println (if checkPath d.edges p a b then "path-ok" else "path-BAD"); loop h n d
       | _, _, _ => IO.println "bad-op"; loop h n d
